@@ -1,4 +1,5 @@
 import OnetVerif.Model.C06
+import OnetVerif.Model.C06Net
 import OnetVerif.Shapes
 /-! Property C06 — a tree learnt from a peer or rebuilt from its serialised form is the same tree.
 Property theorems, the negation witness of the one statement the code does not meet, `_partial`
@@ -1524,6 +1525,477 @@ theorem c06_newtree_aggregates_are_subtree_sums (id : Nat) (ro : Roster) (root :
     | node nid sid key idx agg c s ihc ihs =>
       exact ⟨by simp [aggregate_sum, keySum_aggregate], ihc, ihs⟩
   · simp [newTree, aggregate_clearAgg]
+
+/-! ### two cooperating servers: any interleaving of requests, answers, duplicates and losses (round 5)
+
+`Model/C06Net.lean`: two overlays and the control messages in flight between them.  The *world* says
+which tree every tree id denotes (`W`); servers register only trees of the world.  Then, whatever the
+schedule — both servers asking and answering at the same time, the current and the deprecated exchange
+mixed, messages handled twice, lost, or overtaken by others, requests withdrawn, trees expiring — a tree
+that is in a server's store under an id is the tree the world (its peer) has under that id: id, roster,
+node ids, structure, child order, roster positions, aggregates. -/
+
+/-- every id denotes one well-formed tree over a roster of pairwise distinct servers; roster ids denote
+rosters (the assumption under which the deprecated path may pick "a roster with that id") -/
+def WorldOK (W : Nat → Option Tree) : Prop :=
+  (∀ id t, W id = some t → t.id = id ∧ id ≠ 0 ∧ ∃ ro, t.WF ro ∧ ro.Distinct ∧ ro.id ≠ 0) ∧
+  (∀ i j t t' ro ro', W i = some t → W j = some t' → t.roster = some ro → t'.roster = some ro' →
+      ro.id = ro'.id → ro = ro')
+
+/-- a message in flight was produced by a server of this world -/
+def MsgOK (W : Nat → Option Tree) : Msg → Prop
+  | .requestTree _ _ => True
+  | .requestRoster _ => True
+  | .responseTree tm ro => ∃ t r, W t.id = some t ∧ t.roster = some r ∧ tm = some (makeTreeMarshal t) ∧ ro = some r
+  | .treeMarshal tm => ∃ t, W t.id = some t ∧ tm = makeTreeMarshal t
+  | .sendRoster ro => ro.id = 0 ∨ ∃ t, W t.id = some t ∧ t.roster = some ro
+
+/-- a server's state: every stored tree is the world's tree of that id, every parked description
+describes a tree of the world and is filed under its roster id -/
+def OvlOK (W : Nat → Option Tree) (o : Ovl) : Prop :=
+  (∀ id t, (id, some t) ∈ o.store → W id = some t) ∧
+  (∀ rid sl, (rid, sl) ∈ o.pending → ∀ tm ∈ sl, tm.rosterId = rid ∧ ∃ t, W t.id = some t ∧ tm = makeTreeMarshal t)
+
+def NetOK (W : Nat → Option Tree) (n : Net) : Prop :=
+  (∀ s, OvlOK W (n.ovl s)) ∧ (∀ s, ∀ m ∈ n.inbox s, MsgOK W m)
+
+/-- servers register trees of the world -/
+def EvOK (W : Nat → Option Tree) : NetEv → Prop
+  | .loc _ (.register t) => W t.id = some t
+  | .loc _ (.instance t) => W t.id = some t
+  | _ => True
+
+private theorem lookup_mem {α} (l : List (Nat × α)) (k : Nat) (v : α) (h : lookup l k = some v) : (k, v) ∈ l := by
+  induction l with
+  | nil => simp [lookup] at h
+  | cons p rest ih =>
+    obtain ⟨k', v'⟩ := p
+    by_cases hk : k' = k
+    · simp only [lookup, hk, if_true, Option.some.injEq] at h
+      subst hk; subst h; simp
+    · simp only [lookup, hk, if_false] at h
+      exact List.mem_cons_of_mem _ (ih h)
+
+private theorem mem_insert {α} (l : List (Nat × α)) (k : Nat) (v : α) (p : Nat × α) (h : p ∈ insert l k v) :
+    p = (k, v) ∨ p ∈ l := by
+  induction l with
+  | nil => simp [insert] at h; exact Or.inl h
+  | cons q rest ih =>
+    obtain ⟨k', v'⟩ := q
+    by_cases hk : k' = k
+    · simp only [insert, hk, if_true, List.mem_cons] at h
+      rcases h with h | h
+      · exact Or.inl h
+      · exact Or.inr (List.mem_cons_of_mem _ h)
+    · simp only [insert, hk, if_false, List.mem_cons] at h
+      rcases h with h | h
+      · exact Or.inr (by rw [h]; simp)
+      · rcases ih h with h' | h'
+        · exact Or.inl h'
+        · exact Or.inr (List.mem_cons_of_mem _ h')
+
+private theorem mem_erase {α} (l : List (Nat × α)) (k : Nat) (p : Nat × α) (h : p ∈ erase l k) : p ∈ l := by
+  unfold erase at h
+  exact (List.mem_filter.mp h).1
+
+private theorem get_mem (o : Ovl) (id : Nat) (t : Tree) (h : o.get id = some t) : (id, some t) ∈ o.store := by
+  unfold Ovl.get at h
+  cases hl : lookup o.store id with
+  | none => rw [hl] at h; simp at h
+  | some v =>
+    rw [hl] at h
+    cases v with
+    | none => simp at h
+    | some t' =>
+      simp at h
+      subst h
+      exact lookup_mem _ _ _ hl
+
+private theorem world_mk {W : Nat → Option Tree} (hW : WorldOK W) (t : Tree) (r : Roster)
+    (ht : W t.id = some t) (hr : t.roster = some r) : makeTree (makeTreeMarshal t) (some r) = .ok t := by
+  obtain ⟨_, _, ro, hwf, hd, _⟩ := hW.1 t.id t ht
+  have : ro = r := by
+    have := hwf.1; rw [hr] at this; exact (Option.some.inj this).symm
+  subst this
+  exact c06_roundtrip t ro hd hwf
+
+private theorem setTree_ok {W : Nat → Option Tree} (o : Ovl) (t : Tree) (ho : OvlOK W o) (ht : W t.id = some t) :
+    OvlOK W (o.setTree t) := by
+  refine ⟨?_, ho.2⟩
+  intro id t' hm
+  rcases mem_insert _ _ _ _ hm with h | h
+  · simp only [Prod.mk.injEq, Option.some.injEq] at h
+    rw [h.1, h.2]; exact ht
+  · exact ho.1 id t' h
+
+private theorem hst_ok {W : Nat → Option Tree} (hW : WorldOK W) (o : Ovl) (t : Tree) (r : Roster) (ho : OvlOK W o)
+    (ht : W t.id = some t) (hr : t.roster = some r) :
+    OvlOK W (handleSendTree o (some (makeTreeMarshal t)) (some r)) := by
+  rcases handleSendTree_cases o (some (makeTreeMarshal t)) (some r) with e | ⟨tm', r', t', h1, h2, _, _, hmk, e⟩
+  · rw [e]; exact ho
+  · rw [e]
+    have h1' := Option.some.inj h1
+    have h2' := Option.some.inj h2
+    rw [← h1', ← h2', world_mk hW t r ht hr] at hmk
+    have : t = t' := Except.ok.inj hmk
+    rw [← this]
+    exact setTree_ok o t ho ht
+
+private theorem mtm_rosterId (t : Tree) (r : Roster) (h : t.roster = some r) : (makeTreeMarshal t).rosterId = r.id := by
+  simp [makeTreeMarshal, h]
+
+private theorem fold_ok {W : Nat → Option Tree} (hW : WorldOK W) (ro : Roster)
+    (hro : ∃ t0, W t0.id = some t0 ∧ t0.roster = some ro) :
+    ∀ (sl : List TreeMarshal) (o : Ovl),
+      (∀ tm ∈ sl, tm.rosterId = ro.id ∧ ∃ t, W t.id = some t ∧ tm = makeTreeMarshal t) →
+      OvlOK W o → OvlOK W (sl.foldl (pendStep ro) o) := by
+  intro sl
+  induction sl with
+  | nil => intro o _ ho; exact ho
+  | cons tm rest ih =>
+    intro o hg ho
+    simp only [List.foldl_cons]
+    apply ih _ (fun x hx => hg x (List.mem_cons_of_mem _ hx))
+    rcases pendStep_cases ro o tm with e | ⟨t', _, hmk, e⟩
+    · rw [e]; exact ho
+    · rw [e]
+      obtain ⟨hrid, t, ht, htm⟩ := hg tm (by simp)
+      obtain ⟨t0, ht0, hr0⟩ := hro
+      obtain ⟨_, _, r, hwf, _, _⟩ := hW.1 t.id t ht
+      have hr : t.roster = some r := hwf.1
+      have hid : r.id = ro.id := by rw [← mtm_rosterId t r hr, ← htm]; exact hrid
+      have hrr : r = ro := hW.2 _ _ t t0 r ro ht ht0 hr hr0 hid
+      rw [htm, ← hrr, world_mk hW t r ht hr] at hmk
+      have : t = t' := Except.ok.inj hmk
+      rw [← this]
+      exact setTree_ok o t ho ht
+
+private theorem checkPending_ok {W : Nat → Option Tree} (hW : WorldOK W) (o : Ovl) (ro : Roster)
+    (hro : ∃ t0, W t0.id = some t0 ∧ t0.roster = some ro) (ho : OvlOK W o) : OvlOK W (checkPending o ro) := by
+  rw [checkPending_eq]
+  cases hl : lookup o.pending ro.id with
+  | none => exact ho
+  | some sl =>
+    have hf := fold_ok hW ro hro sl o (ho.2 ro.id sl (lookup_mem _ _ _ hl)) ho
+    exact ⟨hf.1, fun rid sl' hm => hf.2 rid sl' (mem_erase _ _ _ hm)⟩
+
+private theorem instRoster_mem (o : Ovl) (rid : Nat) (ro : Roster) (h : o.instRoster rid = some ro) :
+    ∃ id t, o.get id = some t ∧ t.roster = some ro ∧ ro.id = rid := by
+  unfold Ovl.instRoster at h
+  have hm := List.mem_of_getLast? h
+  obtain ⟨tid, _, hx⟩ := List.mem_filterMap.mp hm
+  cases hg : o.get tid with
+  | none => rw [hg] at hx; simp at hx
+  | some t =>
+    rw [hg] at hx
+    cases hr : t.roster with
+    | none => simp [hr] at hx
+    | some r =>
+      simp only [hr, Option.bind_some] at hx
+      by_cases hid : r.id = rid
+      · simp only [hid, if_true, Option.some.injEq] at hx
+        subst hx
+        exact ⟨tid, t, hg, hr, hid⟩
+      · simp [hid] at hx
+
+private theorem getRoster_mem (o : Ovl) (rid : Nat) (ro : Roster) (h : o.getRoster rid = some ro) :
+    ∃ id t, (id, some t) ∈ o.store ∧ t.roster = some ro := by
+  unfold Ovl.getRoster at h
+  obtain ⟨p, hp, hx⟩ := List.exists_of_findSome?_eq_some h
+  obtain ⟨id, v⟩ := p
+  cases v with
+  | none => simp at hx
+  | some t =>
+    cases hr : t.roster with
+    | none => simp [hr] at hx
+    | some r =>
+      simp only [hr] at hx
+      by_cases hid : r.id = rid
+      · simp only [hid, if_true, Option.some.injEq] at hx
+        subst hx
+        exact ⟨id, t, hp, hr⟩
+      · simp [hid] at hx
+
+/-- one message of this world handled by a server of this world: the server stays in the world, and so
+do its replies -/
+theorem handle_ok {W : Nat → Option Tree} (hW : WorldOK W) (o : Ovl) (m : Msg) (ho : OvlOK W o) (hm : MsgOK W m) :
+    OvlOK W (handle o m).1 ∧ ∀ out ∈ (handle o m).2, MsgOK W out.toMsg := by
+  cases m with
+  | requestTree id v =>
+    simp only [handle]
+    cases hg : o.get id with
+    | none => exact ⟨ho, by simp⟩
+    | some t =>
+      have hw := ho.1 id t (get_mem o id t hg)
+      obtain ⟨hid, _, ro, hwf, _, _⟩ := hW.1 id t hw
+      have hw' : W t.id = some t := by rw [hid]; exact hw
+      by_cases hv : v = 0
+      · simp only [hv, if_true]
+        refine ⟨ho, ?_⟩
+        intro out hout
+        simp only [List.mem_singleton] at hout
+        subst hout
+        exact ⟨t, hw', rfl⟩
+      · simp only [hv, if_false]
+        refine ⟨ho, ?_⟩
+        intro out hout
+        simp only [List.mem_singleton] at hout
+        subst hout
+        exact ⟨t, ro, hw', hwf.1, rfl, hwf.1⟩
+  | responseTree tm ro =>
+    obtain ⟨t, r, ht, hr, h1, h2⟩ := hm
+    subst h1; subst h2
+    exact ⟨hst_ok hW o t r ho ht hr, by simp [handle]⟩
+  | treeMarshal tm =>
+    obtain ⟨t, ht, h1⟩ := hm
+    subst h1
+    simp only [handle]
+    split
+    · exact ⟨ho, by simp⟩
+    · split
+      · exact ⟨ho, by simp⟩
+      · split
+        · next hnone =>
+          refine ⟨⟨ho.1, ?_⟩, ?_⟩
+          · intro rid sl hmem
+            rcases mem_insert _ _ _ _ hmem with h | h
+            · simp only [Prod.mk.injEq] at h
+              obtain ⟨h1, h2⟩ := h
+              subst h1; subst h2
+              intro tm htm
+              rcases List.mem_append.mp htm with h | h
+              · cases hl : lookup o.pending (makeTreeMarshal t).rosterId with
+                | none => rw [hl] at h; simp at h
+                | some sl0 =>
+                  rw [hl] at h
+                  exact ho.2 _ sl0 (lookup_mem _ _ _ hl) tm (by simpa using h)
+              · simp only [List.mem_singleton] at h
+                subst h
+                exact ⟨rfl, t, ht, rfl⟩
+            · exact ho.2 rid sl h
+          · intro out hout
+            simp only [List.mem_singleton] at hout
+            subst hout
+            trivial
+        · next ro hsome =>
+          obtain ⟨id0, t0, hg0, hr0, hid0⟩ := instRoster_mem o _ ro hsome
+          have hw0 := ho.1 id0 t0 (get_mem o id0 t0 hg0)
+          obtain ⟨hid00, _, _⟩ := hW.1 id0 t0 hw0
+          have hw0' : W t0.id = some t0 := by rw [hid00]; exact hw0
+          obtain ⟨_, _, r, hwf, _, _⟩ := hW.1 t.id t ht
+          have hr : t.roster = some r := hwf.1
+          have hrr : r = ro := hW.2 _ _ t t0 r ro ht hw0' hr hr0 (by rw [hid0, mtm_rosterId t r hr])
+          subst hrr
+          exact ⟨hst_ok hW o t r ho ht hr, by simp⟩
+  | requestRoster rid =>
+    simp only [handle]
+    refine ⟨ho, ?_⟩
+    intro out hout
+    simp only [List.mem_singleton] at hout
+    subst hout
+    cases hg : o.getRoster rid with
+    | none => exact Or.inl rfl
+    | some ro =>
+      obtain ⟨id, t, hmem, hr⟩ := getRoster_mem o rid ro hg
+      have hw := ho.1 id t hmem
+      obtain ⟨hid, _, _⟩ := hW.1 id t hw
+      exact Or.inr ⟨t, by rw [hid]; exact hw, hr⟩
+  | sendRoster ro =>
+    simp only [handle]
+    split
+    · exact ⟨ho, by simp⟩
+    · next hne =>
+      rcases hm with h0 | hro
+      · exact absurd h0 hne
+      · exact ⟨checkPending_ok hW o ro hro ho, by simp⟩
+
+private theorem store_sub_ok {W : Nat → Option Tree} (o o' : Ovl) (ho : OvlOK W o)
+    (hs : ∀ id t, (id, some t) ∈ o'.store → (id, some t) ∈ o.store) (hp : o'.pending = o.pending) : OvlOK W o' :=
+  ⟨fun id t h => ho.1 id t (hs id t h), by rw [hp]; exact ho.2⟩
+
+/-- a local action (a request, its withdrawal, expiry, the registration of a tree of the world) keeps a
+server in the world -/
+theorem local_ok {W : Nat → Option Tree} (o : Ovl) (l : Local) (ho : OvlOK W o)
+    (hl : match l with | .register t => W t.id = some t | .instance t => W t.id = some t | _ => True) :
+    OvlOK W (localStep o l) := by
+  have hins : ∀ (id : Nat) (i : Nat) (t : Tree), (i, some t) ∈ insert o.store id none → (i, some t) ∈ o.store := by
+    intro id i t h
+    rcases mem_insert _ _ _ _ h with h | h
+    · simp at h
+    · exact h
+  cases l with
+  | reqSend id =>
+    simp only [localStep]
+    split
+    · exact store_sub_ok o _ ho (hins id) rfl
+    · exact ho
+  | reqFail id =>
+    simp only [localStep]
+    split
+    · exact store_sub_ok o _ ho (fun _ _ h => h) rfl
+    · exact ho
+  | request id =>
+    simp only [localStep]
+    refine store_sub_ok o _ ho ?_ rfl
+    intro i t h
+    simp only at h
+    split at h
+    · exact h
+    · exact hins id i t h
+  | unrequest id =>
+    simp only [localStep]
+    split
+    · exact store_sub_ok o _ ho (fun i t h => mem_erase _ _ _ h) rfl
+    · exact ho
+  | register t =>
+    have := setTree_ok o t ho hl
+    exact ⟨this.1, this.2⟩
+  | «instance» t =>
+    simp only [localStep]
+    split
+    · have := setTree_ok o t ho hl
+      exact ⟨this.1, this.2⟩
+    · exact ho
+  | expire id =>
+    exact store_sub_ok o _ ho (fun i t h => mem_erase _ _ _ h) rfl
+
+private theorem upd_same {α : Type} (f : Site → α) (s : Site) (v : α) : upd f s v s = v := by simp [upd]
+private theorem upd_cases {α : Type} (f : Site → α) (s s' : Site) (v : α) : upd f s v s' = v ∨ upd f s v s' = f s' := by
+  unfold upd; split
+  · exact Or.inl rfl
+  · exact Or.inr rfl
+
+private theorem handleAt_ok {W : Nat → Option Tree} (hW : WorldOK W) (n : Net) (s : Site) (m : Msg) (rest : List Msg)
+    (hn : NetOK W n) (hm : MsgOK W m) (hrest : ∀ x ∈ rest, MsgOK W x) : NetOK W (n.handleAt s m rest) := by
+  obtain ⟨h1, h2⟩ := handle_ok hW (n.ovl s) m (hn.1 s) hm
+  refine ⟨?_, ?_⟩
+  · intro s'
+    simp only [Net.handleAt]
+    rcases upd_cases n.ovl s s' (handle (n.ovl s) m).1 with e | e
+    · rw [e]; exact h1
+    · rw [e]; exact hn.1 s'
+  · intro s' x hx
+    simp only [Net.handleAt] at hx
+    have hin : ∀ s'' y, y ∈ upd n.inbox s rest s'' → MsgOK W y := by
+      intro s'' y hy
+      rcases upd_cases n.inbox s s'' rest with e | e
+      · rw [e] at hy; exact hrest y hy
+      · rw [e] at hy; exact hn.2 s'' y hy
+    rcases upd_cases (upd n.inbox s rest) s.other s'
+        (upd n.inbox s rest s.other ++ (handle (n.ovl s) m).2.map Out.toMsg) with e | e
+    · rw [e] at hx
+      rcases List.mem_append.mp hx with h | h
+      · exact hin _ x h
+      · obtain ⟨out, hout, rfl⟩ := List.mem_map.mp h
+        exact h2 out hout
+    · rw [e] at hx; exact hin _ x hx
+
+private theorem mem_eraseIdx {α} (l : List α) (i : Nat) (x : α) (h : x ∈ l.eraseIdx i) : x ∈ l :=
+  List.mem_of_mem_eraseIdx h
+
+theorem netStep_ok {W : Nat → Option Tree} (hW : WorldOK W) (n : Net) (e : NetEv) (hn : NetOK W n) (he : EvOK W e) :
+    NetOK W (netStep n e) := by
+  cases e with
+  | loc s l =>
+    refine ⟨?_, hn.2⟩
+    intro s'
+    simp only [netStep]
+    rcases upd_cases n.ovl s s' (localStep (n.ovl s) l) with e | e
+    · rw [e]
+      apply local_ok _ _ (hn.1 s)
+      cases l <;> first | exact he | trivial
+    · rw [e]; exact hn.1 s'
+  | ask s id v =>
+    refine ⟨?_, ?_⟩
+    · intro s'
+      simp only [netStep]
+      rcases upd_cases n.ovl s s' (localStep (n.ovl s) (.reqSend id)) with e | e
+      · rw [e]; exact local_ok _ _ (hn.1 s) trivial
+      · rw [e]; exact hn.1 s'
+    · intro s' x hx
+      simp only [netStep] at hx
+      split at hx
+      · rcases upd_cases n.inbox s.other s' (n.inbox s.other ++ [Msg.requestTree id v]) with e | e
+        · rw [e] at hx
+          rcases List.mem_append.mp hx with h | h
+          · exact hn.2 _ x h
+          · simp only [List.mem_singleton] at h; subst h; trivial
+        · rw [e] at hx; exact hn.2 s' x hx
+      · exact hn.2 s' x hx
+  | deliver s i =>
+    simp only [netStep]
+    cases hg : (n.inbox s)[i]? with
+    | none => exact hn
+    | some m =>
+      exact handleAt_ok hW n s m _ hn (hn.2 s m (List.mem_of_getElem? hg))
+        (fun x hx => hn.2 s x (mem_eraseIdx _ _ _ hx))
+  | redeliver s i =>
+    simp only [netStep]
+    cases hg : (n.inbox s)[i]? with
+    | none => exact hn
+    | some m =>
+      exact handleAt_ok hW n s m _ hn (hn.2 s m (List.mem_of_getElem? hg)) (fun x hx => hn.2 s x hx)
+  | drop s i =>
+    refine ⟨hn.1, ?_⟩
+    intro s' x hx
+    simp only [netStep] at hx
+    rcases upd_cases n.inbox s s' ((n.inbox s).eraseIdx i) with e | e
+    · rw [e] at hx; exact hn.2 s x (mem_eraseIdx _ _ _ hx)
+    · rw [e] at hx; exact hn.2 s' x hx
+
+/-- **two servers, any schedule: a learnt tree is the peer's tree.**  From any state of the world (for
+instance: both stores empty, nothing in flight) and for every finite run — local registrations of trees
+of the world, requests in the current or the deprecated form, every message handled in any order, any
+number of times or never, withdrawals, expiry — every tree found in either server's store under an id
+is the world's tree of that id, equal to it in every field. -/
+theorem c06_two_servers_learn_only_the_peers_trees (W : Nat → Option Tree) (hW : WorldOK W)
+    (n : Net) (hn : NetOK W n) (evs : List NetEv) (hev : ∀ e ∈ evs, EvOK W e) :
+    NetOK W (netRun n evs) ∧ ∀ s id t, ((netRun n evs).ovl s).get id = some t → W id = some t := by
+  have hrun : NetOK W (netRun n evs) := by
+    unfold netRun
+    induction evs generalizing n with
+    | nil => exact hn
+    | cons e rest ih =>
+      simp only [List.foldl_cons]
+      exact ih _ (netStep_ok hW n e hn (hev e (by simp))) (fun x hx => hev x (List.mem_cons_of_mem _ hx))
+  exact ⟨hrun, fun s id t h => (hrun.1 s).1 id t (get_mem _ id t h)⟩
+
+/-- the empty network is a state of every world -/
+theorem netOK_empty (W : Nat → Option Tree) : NetOK W { ovl := fun _ => {}, inbox := fun _ => [] } :=
+  ⟨fun _ => ⟨by intro id t h; simp at h, by intro rid sl h; simp at h⟩, by intro s m h; simp at h⟩
+
+/-- non-vacuity of the two-server theorem: a world with one tree (id 1, three nodes over two servers);
+A registers it; B asks for it in the deprecated form while A's answer to an earlier current-form request
+is still under way, handles the duplicate answers in the "wrong" order — and holds exactly A's tree -/
+example : ∃ (W : Nat → Option Tree) (t : Tree) (evs : List NetEv), WorldOK W ∧ W 1 = some t ∧
+    (∀ e ∈ evs, EvOK W e) ∧
+    ((netRun { ovl := fun _ => {}, inbox := fun _ => [] } evs).ovl .B).get 1 = some t ∧
+    (netRun { ovl := fun _ => {}, inbox := fun _ => [] } evs).inbox .B = [] := by
+  let ro : Roster := { id := 9, list := [⟨3, 4, false⟩, ⟨5, 6, false⟩] }
+  let t := newTree 1 ro (.node 3 3 4 0 0 (.node 5 5 6 1 0 .nil (.node 3 3 4 0 0 .nil .nil)) .nil)
+  have hd : ro.Distinct := by unfold Roster.Distinct; decide
+  have hw : t.WF ro := newTree_wf 1 ro _ (by decide) (by simp [NodesOK, ro])
+  refine ⟨fun id => if id = 1 then some t else none, t,
+    [.loc .A (.register t), .ask .B 1 0, .deliver .A 0, .loc .B (.unrequest 1), .ask .B 1 1, .deliver .A 0,
+     .deliver .B 0, .deliver .A 0, .redeliver .B 1, .deliver .B 0, .deliver .B 0], ?_, by simp, ?_, by decide, by decide⟩
+  · refine ⟨?_, ?_⟩
+    · intro id x hx
+      by_cases h1 : id = 1
+      · simp only [h1, if_true, Option.some.injEq] at hx
+        subst hx; subst h1
+        exact ⟨rfl, by decide, ro, hw, hd, by decide⟩
+      · simp [h1] at hx
+    · intro i j x x' r r' hx hx' hr hr' _
+      by_cases h1 : i = 1
+      · by_cases h2 : j = 1
+        · simp only [h1, h2, if_true, Option.some.injEq] at hx hx'
+          subst hx; subst hx'
+          rw [hr] at hr'; exact Option.some.inj hr'
+        · simp [h2] at hx'
+      · simp [h1] at hx
+  · intro e he
+    simp only [List.mem_cons, List.mem_nil_iff, or_false] at he
+    rcases he with h | h | h | h | h | h | h | h | h | h | h <;> subst h <;> simp [EvOK, t, newTree]
 
 /-! ### the code regions the model stands for
 Regenerated from /repo's source on every run (`harness/cmd/astfacts` → `OnetVerif/Shapes.lean`): the
